@@ -210,6 +210,96 @@ def install(E):
     t[os.path.normpath] = p_normpath
     E.normpath_uf = normpath_uf
 
+    # ---- the rest of the file-system API (A4) ---------------------------------------------------------------------------
+    # Calls that CHANGE the file system are effects like open(): they are appended to the effect log, so that the effect-order
+    # contracts see them (a destination unlinked before validation destroys the last good copy just like a truncating open).
+    # Read-only queries are uninterpreted functions of their arguments (consistent answers, arbitrary values); a path that used one
+    # is marked `havoc`: its counter-models are not replayed literally, the bounded search over the contract's samples decides.
+    import shutil
+    import stat as _stat
+
+    def fs_modify(name):
+        def f(a, k):
+            E.path.effects.append(("fs_modify", name, tuple(a)))
+            E.path.assumed.append("A4:%s" % name)
+            return None
+        return f
+    for mod, names in ((os, ("unlink", "remove", "rename", "replace", "rmdir", "truncate", "makedirs", "mkdir", "link", "symlink",
+                             "chmod", "utime", "removedirs", "renames")),
+                       (shutil, ("rmtree", "move", "copy", "copy2", "copyfile", "copytree"))):
+        for n in names:
+            fn = getattr(mod, n, None)
+            if fn is not None:
+                t[fn] = fs_modify("%s.%s" % (mod.__name__, n))
+
+    class HavocObj(object):
+        """result of an unmodelled read-only library call (os.stat ...): every attribute is an unconstrained value"""
+        def __init__(self, tag):
+            self.tag = tag
+            self.attrs = {}
+    E.HavocObj = HavocObj
+
+    def havoc_attr(o, name, default):
+        if name not in o.attrs:
+            if name.startswith("st_") and name not in ("st_mtime", "st_atime", "st_ctime"):
+                o.attrs[name] = SV(Val.VInt(E.fresh("%s.%s" % (o.tag, name), z3.IntSort())))
+            else:
+                o.attrs[name] = E.fresh_val("%s.%s" % (o.tag, name))
+        return o.attrs[name]
+    Models.attr_hooks[HavocObj] = havoc_attr
+
+    def fs_query_str(name):
+        uf = z3.Function("fs_%s" % name.replace(".", "_"), sym.S, sym.S)
+
+        def f(a, k):
+            p = sym.concrete(a[0])
+            if isinstance(p, str):
+                return getattr(os.path, name.split(".")[-1])(p) if name in ("os.path.dirname", "os.path.basename") else sym.mk_str(uf(z3.StringVal(p)))
+            if isinstance(p, SV) and E.decide(sym.is_str(p)):
+                E.havoc("%s of a symbolic path" % name)
+                return sym.mk_str(uf(sym.sstr(p)))
+            raise PyRaise(ExcVal(TypeError, (name,)))
+        return f
+    for n in ("dirname", "basename", "abspath", "realpath", "expanduser"):
+        t[getattr(os.path, n)] = fs_query_str("os.path." + n)
+
+    def fs_query_bool(name):
+        uf = z3.Function("fs_%s" % name.replace(".", "_"), sym.S, z3.BoolSort())
+
+        def f(a, k):
+            p = sym.concrete(a[0])
+            E.havoc("%s: answer of the file system" % name)
+            if isinstance(p, str):
+                return E.decide(uf(z3.StringVal(p)))
+            if isinstance(p, SV) and E.decide(sym.is_str(p)):
+                return E.decide(uf(sym.sstr(p)))
+            raise PyRaise(ExcVal(TypeError, (name,)))
+        return f
+    for n in ("isdir", "isfile", "islink", "ismount", "lexists"):
+        t[getattr(os.path, n)] = fs_query_bool("os.path." + n)
+
+    def fs_stat(name):
+        def f(a, k):
+            E.havoc("%s: answer of the file system" % name)
+            if E.decide(E.fresh("%s_succeeds" % name.replace(".", "_"), z3.BoolSort())):
+                return HavocObj(name)
+            raise PyRaise(ExcVal(OSError, (name,)))
+        return f
+    for n in ("stat", "lstat"):
+        t[getattr(os, n)] = fs_stat("os." + n)
+    for n in ("getsize", "getmtime", "getctime", "getatime"):
+        def g(a, k, n=n):
+            E.havoc("os.path.%s: answer of the file system" % n)
+            return E.fresh_val("os.path.%s" % n)
+        t[getattr(os.path, n)] = g
+    for n in dir(_stat):
+        fn = getattr(_stat, n)
+        if n.startswith("S_IS") and callable(fn):
+            def sq(a, k, n=n):
+                E.havoc("stat.%s of an unmodelled mode" % n)
+                return E.decide(E.fresh("stat_%s" % n, z3.BoolSort()))
+            t[fn] = sq
+
     # ---- hashlib ------------------------------------------------------------------------------------------------------
     def h_new(a, k):
         return HashObj(a[0])
